@@ -221,6 +221,7 @@ def facts():
     f.update(de_row_facts())
     f.update(order_facts())
     f.update(macro_facts())
+    f.update(iter_facts())
     return f
 
 
@@ -244,7 +245,8 @@ def emit(f):
               "task_system_self_send", "task_system_views_send", "task_system_res_send", "task_system_entry_send",
               "task_parsystem_self_send", "task_parsystem_views_send", "task_parsystem_res_send", "task_parsystem_entry_send",
               "clear_sets_length_first", "adopt_requires_no_allocation",
-              "entities_macro_evaluates_size_once", "entities_macro_unchecked_arms_known"]:
+              "entities_macro_evaluates_size_once", "entities_macro_unchecked_arms_known",
+              "iter_fold_folds_current_first", "iter_next_drains_current_first"]:
         o.append("Definition fact_%s : bool := %s." % (k, b(f[k])))
     o.append("Definition world_literal_sites : list string := [%s]." % "; ".join('"%s"' % s for s in f["literal_sites"]))
     o.append("Definition batch_literal_sites : list string := [%s]." % "; ".join('"%s"' % s for s in f["batch_literal_sites"]))
@@ -427,6 +429,26 @@ def macro_facts():
     f["entities_macro_unchecked_arms_known"] = (len(cloned) == 1 and len(others) == 3
         and sum(1 for a in others if "@transpose[]" in a) == 1
         and sum(1 for a in others if "new_unchecked($crate::entities::Null)" in a) == 2)
+    return f
+
+
+# ---------------------------------------------------------------------------------------------
+# The result iterator of World::query (C03): what `next` and `fold` do with the archetype being drained
+
+def iter_facts():
+    f = {}
+    src = read("src/query/result/iter.rs")
+    bodies = {n: norm(b) for q, n, b in fn_bodies(src) if n in ("next", "fold")}
+    if "next" not in bodies or "fold" not in bodies:
+        raise ParseFailure("query/result/iter.rs: next/fold")
+    fo = bodies["fold"]
+    i1 = fo.find("ifletSome(results)=self.current_results_iter{init=results.fold(init,&mutfold);}")
+    i2 = fo.find("self.archetypes_iter.fold(init,")
+    f["iter_fold_folds_current_first"] = 0 <= i1 < i2
+    nx = bodies["next"]
+    j1 = nx.find("ifletSome(refmutresults)=self.current_results_iter{ifletresult@Some(_)=results.next(){returnresult;}}")
+    j2 = nx.find("self.archetypes_iter.find(")
+    f["iter_next_drains_current_first"] = 0 <= j1 < j2 and nx.startswith("loop{")
     return f
 
 
